@@ -85,7 +85,6 @@ structure LinkClass (g : MG Name) (o c : Event) (comps : List (List Var)) : Prop
   comps_ok : condComps g o c = .ok comps
   oneWorld : ∀ a ∈ comps.flatten, ∀ b ∈ comps.flatten, a.name = b.name → a = b
   found : OutcomesFound g o c = true
-  disj : ∀ p ∈ o, ∀ q ∈ c, p.1.name ≠ q.1.name
   outNodup : (o.map (·.1.name)).Nodup
   noSelf : ∀ p ∈ o ++ c, p.1.name ∉ subNames p.1
   cons : ∀ p ∈ o ++ c, ConsistentSubs p.1.ivs
@@ -99,8 +98,8 @@ theorem linkClass_of (g : MG Name) (o c : Event) (h : ctfTRLinkClass g o c = tru
   | ok comps =>
     rw [hc] at h
     simp only [Bool.and_eq_true, decide_eq_true_eq] at h
-    obtain ⟨⟨⟨⟨⟨h1, h2⟩, h3⟩, h4⟩, h5⟩, h6⟩ := h
-    refine ⟨comps, ⟨hc, ?_, h2, ?_, h4, ?_, ?_, ?_⟩⟩
+    obtain ⟨⟨⟨⟨h1, h2⟩, h4⟩, h5⟩, h6⟩ := h
+    refine ⟨comps, ⟨hc, ?_, h2, h4, ?_, ?_, ?_⟩⟩
     · intro a ha b hb hab
       rw [List.all_eq_true] at h1
       have := h1 a ha
@@ -110,12 +109,6 @@ theorem linkClass_of (g : MG Name) (o c : Event) (h : ctfTRLinkClass g o c = tru
       rcases this with h' | h'
       · exact absurd hab h'
       · exact h'
-    · intro p hp q hq
-      unfold OutcomeNotCondition at h3
-      rw [List.all_eq_true] at h3
-      have := h3 p hp
-      rw [List.all_eq_true] at this
-      simpa using this q hq
     · intro p hp
       rw [List.all_eq_true] at h5
       have := h5 p hp
